@@ -494,10 +494,10 @@ pub fn run_c03<C: NatCtx>(v: &mut Env<C>) {
     // ---- SCALE: honest shuffle + proof + verification far beyond every block size a refactor might introduce
     // (2^12, 2^14, 2^16 and one more), on the cheapest group, implementation only (no model line: the point is
     // "for every N", and the verdict needs no oracle)
-    if small && v.p == big(23) && C::kind() == 'B' {
+    if small && v.p == big(23) {
         let ctx = v.ctx.clone();
         let tok = v.tok.clone();
-        for nn in if quick { vec![4097usize, 16385] } else { vec![4097, 16385, 65537, 131073] } {
+        for nn in if C::kind() == 'M' { vec![4097usize] } else if quick { vec![4097usize, 16385] } else { vec![4097, 16385, 65537, 131073] } {
             let s = setup(v, &sk, nn, b"scale");
             let sh = Shuffler::new(&s.pk, &s.gens, &ctx);
             strand::verif_hooks::load_exp_tape(vec![]);
@@ -510,6 +510,12 @@ pub fn run_c03<C: NatCtx>(v: &mut Env<C>) {
             };
             v.h.check(ok, || format!("honest shuffle proof for N = {} rejected on {}", nn, tok));
         }
+    }
+    // ---- a label longer than 65535 bytes (P23 only)
+    if small && v.p == big(23) {
+        let s = setup(v, &sk, 2, b"longlabel");
+        let label = v.h.rng.bytes(70000);
+        honest(v, &s, 2, &[1, 0], &label, 1, 0, false);
     }
     // ---- SEQUENCES over reused buffers: successive batches written IN PLACE into the same two vectors (a mixer
     // processing batch after batch); every proof must be accepted by an independent verifier: other buffers,
